@@ -96,6 +96,12 @@ T_Convert(e) == /\ e.ev = "Convert" /\ tph \in {"written", "parsed", "dead"} /\ 
                               ELSE (IF samev THEN Item("convert-same", DiffT(e.secs, Names)) ELSE Item("convert", DiffX(e.secs, rep)))
                                    \* the converted model carries the requested version: end of the (multi-step) path of M2Layout
                                    \cup Flag("convert-version", tcase.kind = "m2" /\ e.rver # VerNum(FinalVersion(e.from, e.to)))
+                                   \* header-level counts of the converted model, in memory and after write+parse (M2Layout!ExpectedProfiles)
+                                   \cup Flag("convert-header-counts", tcase.kind = "m2" /\ VerNum(e.to) > 263
+                                               /\ e.rprof # ExpectedProfiles(e.from, e.to, tcase.shape.views, e.sprof))
+                                   \cup Flag("convert-parse-header-counts", tcase.kind = "m2" /\ e.pres = "ok"
+                                               /\ (IF VerNum(e.to) > 263 THEN e.pprof # ExpectedProfiles(e.from, e.to, tcase.shape.views, e.sprof)
+                                                                        ELSE e.pviews # ExpectedViewsAfterParse(e.from, e.to, tcase.shape.views)))
                                    \cup Flag("convert-parse-version", tcase.kind = "m2" /\ e.pres = "ok" /\ e.pver # VerNum(e.to))
                                    \cup (IF e.wres # "ok" THEN (IF IsErr(e.wres) /\ ~samev THEN {} ELSE {<<"convert-write-res", e.wres>>})
                                        ELSE (IF samev THEN Flag("convert-same-bytes", e.wtok # twr.tok \/ e.wlen # twr.len) ELSE {})
